@@ -271,6 +271,12 @@ impl ScriptFs {
         if let Some(e) = self.err() {
             return Err(e);
         }
+        if self.ans() == "perr" {
+            // fault probe: the file system has already stored part of the data when it fails
+            let d = unhex(ks(&self.kv, "data"));
+            let _ = w.write_all(&d);
+            return Err(io::Error::from_raw_os_error(kn(&self.kv, "errno") as i32));
+        }
         if self.ans() == "data" {
             let d = unhex(ks(&self.kv, "data"));
             w.write_all(&d)?;
